@@ -388,6 +388,11 @@ class Exec:
         if not getattr(info, 'is_nested', False):
             _frame_record(info)
         node = info.node
+        for d in getattr(node, 'decorator_list', []):
+            dn = d.id if isinstance(d, ast.Name) else (d.attr if isinstance(d, ast.Attribute) else None)
+            if dn not in ('staticmethod', 'classmethod', 'property', 'abstractmethod', 'override', 'final'):
+                # a decorator replaces the function by something else (a cache, a wrapper): its body is not what a call runs
+                raise Unsupported(f'function {info.qualname} is wrapped by the decorator {ast.unparse(d)}')
         fr = Frame(info.module, info)
         a = node.args
         params = [p.arg for p in a.posonlyargs + a.args]
@@ -933,6 +938,9 @@ class Exec:
         try:
             r = f(a, b)
         except TypeError as te:
+            if any(type(x).__module__.startswith(('pyvc', 'contracts', 'props')) and not isinstance(x, (Sym, SBytes, SStr, Obj)) for x in (a, b)):
+                # an operand is an abstract value of the engine (unknown content): the TypeError is the engine's, not the program's
+                raise Unsupported(f'{type(op).__name__} on abstract value {a!r} / {b!r}')
             raise PyRaise(make_exc('TypeError', str(te)))
         if r is NotImplemented:
             raise PyRaise(make_exc('TypeError', f'unsupported operand types for {type(op).__name__}'))
